@@ -356,6 +356,26 @@ def check(run):
                     add(lines, 'cc', S.mk_multi('MP', ms), c)
     run.run_cases('islands-in-holes', lines, impl, spec, tag=_tag, nontrivial=_nontrivial)
 
+    # ---- 2c. members that straddle the antimeridian: a circle / ellipse / ring there has min_lon > max_lon, so any
+    #          bounding-box shortcut in a member loop silently skips it (seeded change C04-n2)
+    lines = []
+    F_ = Fraction
+    am = {'C': 'C:' + S._p(F_(1799, 10), 10) + ';60000', 'E': 'E:' + S._p(F_(1799, 10), 10) + ';70000;40000;30',
+          'R': 'R:' + S._p(F_(1799, 10), 10) + ';10000;60000'}
+    near_line = 'L:' + S._ring([(F_(1790, 10), 10), (F_(1798, 10), F_(201, 20))])        # reaches into the shapes, west of 180
+    near_pt = 'T:' + S._p(F_(1796, 10), 10)
+    east_line = 'L:' + S._ring([(-F_(1799, 10), F_(19, 2)), (-F_(1797, 10), F_(21, 2))])  # on the far side of the seam
+    far = far_members('MP')
+    for name, tok in am.items():
+        for ms in ([tok], [far[0], tok], [tok, far[0]], [far[0], far[1], tok]):
+            M = S.mk_multi('MP', ms)
+            for x in (near_line, near_pt, east_line):
+                add(lines, 'sim', x, M)
+                add(lines, 'mis', M, x)
+                add(lines, 'scm', x, M)
+                add(lines, 'mcs', M, x)
+    run.run_cases('antimeridian-members', lines, impl, spec, tag=_tag, nontrivial=_nontrivial)
+
     # ---- 3. single receiver x multi argument (the mirrored calls) --------------------------------------
     lines = []
     for K in ('MP', 'ML', 'MT'):
